@@ -209,6 +209,22 @@ CHECKS['C11'] = dict(
     technique='property-based testing (Hypothesis), metamorphic / '
               'differential pairs with harness-owned schedules')
 
+CHECKS['C14'] = dict(
+    category='exploration', design_ref='DESIGN.md §15 (C14)',
+    text='Weight vectors from hundreds of short generated runs (incl. exact '
+         'zero weights and a few dominant weights) x boosts (1, 1+-ulp, '
+         'log-uniform 0.01..50) x 300 (quick) / 1500 (thorough) resampling '
+         'draws: multiplicities are decoded from the returned rows and must '
+         'lie in {floor(r), floor(r)+1} (exactly r for integer r, no repeats '
+         'for boost<=1), order / log L / blobs preserved, weights equal and '
+         'normalised, weighted posterior unchanged; the mean is tested per '
+         'row (exact binomial, Bonferroni) and aggregated (z-test) with a '
+         'confirmation stage.',
+    note='Statistical clause at overall level 1e-9; a common relative bias '
+         'of about 3 % in the rounding probability is detected in quick.',
+    technique='property-based testing (Hypothesis) with set-membership and '
+              'statistical (binomial) oracles over many draws')
+
 NOT_YET = {}
 
 
